@@ -102,6 +102,46 @@ def _impl_one_inner(mod, case, req):
     return ans, fails, req
 
 
+def _mix_child(args):
+    """One process, many cases back to back in a shuffled order and then in the reverse order: state that leaks from one
+    call into the next (a module-level cache with too coarse a key, a shared default argument, a class attribute used as
+    scratch space) shows as a property failure of a case that passed when it ran on its own.  Returns the first failure
+    as (position in the order, phase, failure text, answer) or None.  Only the independent oracle judges."""
+    modname, cases, order, known_ids, budget = args
+    mod = importlib.import_module(modname)
+    t0 = time.process_time()
+    for phase, seq in (("shuffled", order), ("reversed", list(reversed(order)))):
+        for pos, i in enumerate(seq):
+            if time.process_time() - t0 > budget:
+                return None
+            c = dict(cases[i])
+            a, fails, _ = _impl_one((modname, c))
+            if a == "skipped-after-timeouts":
+                return None
+            for f in fails:
+                kid = mod.known_id(c, f) if hasattr(mod, "known_id") else None
+                if kid and kid in known_ids:
+                    continue
+                if str(f).startswith("oracle-exc:") or str(a).startswith("harness-exc:"):
+                    continue
+                return (pos, phase, f, a)
+    return None
+
+
+def _mix_child_seq(args):
+    """run the given cases in order in this (fresh) process; True iff the LAST one fails its oracle"""
+    modname, seq, known_ids = args
+    mod = importlib.import_module(modname)
+    last = None
+    for c in seq:
+        c = dict(c)
+        a, fails, _ = _impl_one((modname, c))
+        last = [f for f in fails
+                if not ((mod.known_id(c, f) if hasattr(mod, "known_id") else None) in known_ids)
+                and not str(f).startswith("oracle-exc:")]
+    return bool(last)
+
+
 class Check:
     def __init__(self, modname, tier, seed, replay=None):
         self.modname = modname
@@ -218,11 +258,15 @@ class Check:
     def run_impl(self, cases):
         args = [(self.modname, c) for c in cases]
         workers = int(os.environ.get("VERIF_WORKERS", "0")) or min(16, os.cpu_count() or 1)
-        if len(cases) >= 3000 and workers > 1 and not getattr(self.mod, "SERIAL", False):
-            with multiprocessing.get_context("fork").Pool(workers) as pool:
-                # contiguous chunks: cases a generator emits back to back run in the same process, in order
-                return pool.map(_impl_one, args, chunksize=max(2, len(args) // (workers * 8)))
-        return [_impl_one(a) for a in args]
+        if len(cases) < 3000 or getattr(self.mod, "SERIAL", False):
+            workers = 1
+        # always in forked children (one child, in order, for small runs): this process never executes the code under
+        # test itself, so the children of the mixing pass start from a clean interpreter state
+        with multiprocessing.get_context("fork").Pool(workers) as pool:
+            if workers == 1:
+                return pool.map(_impl_one, args, chunksize=max(1, len(args)))
+            # contiguous chunks: cases a generator emits back to back run in the same process, in order
+            return pool.map(_impl_one, args, chunksize=max(2, len(args) // (workers * 8)))
 
     # --------------------------------------------------------------- report
     def write_replay(self, tag, payload):
@@ -291,8 +335,24 @@ class Check:
                     self.known_hits[kid] += 1
                 else:
                     unknown_fail.append((i, f))
+        if not unknown_fail and not self.replay and len(cases) >= 2 and os.environ.get("VERIF_NO_MIX") != "1":
+            leak = self.mixing_pass(cases, results, known)
+            if leak:
+                unknown_fail.append(leak)
         exit_code = 0
-        if unknown_fail:
+        if unknown_fail and unknown_fail[0][0] == "mix":
+            _, f, payload_cases, ans = unknown_fail[0]
+            payload = {
+                "property": self.prop, "kind": "property-fails-on-implementation", "failure": f,
+                "cases": payload_cases, "described": [mod.describe(c) for c in payload_cases[-3:]],
+                "impl_answer": ans, "found_by": "mixing pass: the cases of `cases` run back to back in ONE process, in this order; "
+                "the last one fails although it passes when run alone", "seed": self.seed, "tier": self.tier,
+                "replay_cmd": f"/venv/bin/python harness/check.py {self.prop} --replay <this file>",
+            }
+            path = self.write_replay("fail", payload)
+            print(f"VIOLATION property={self.prop} replay={path}")
+            exit_code = 1
+        elif unknown_fail:
             # smallest failing case first
             unknown_fail.sort(key=lambda t: len(cases[t[0]].get("req") or json.dumps(mod.describe(cases[t[0]]))))
             i, f = unknown_fail[0]
@@ -346,6 +406,49 @@ class Check:
         self.write_evidence(cases, results, disagreements, info, proofs_ok,
                             status="ok" if exit_code == 0 else "violation")
         return exit_code
+
+    def mixing_pass(self, cases, results, known):
+        """see _mix_child; only cases that passed on their own take part.  The child is forked from this (clean) process."""
+        ok = [i for i, (a, fails) in enumerate(results) if not fails]
+        if len(ok) < 2:
+            return None
+        rng = random.Random(f"{self.prop}-{self.seed}-mix")
+        k = int(os.environ.get("VERIF_MIX_CASES", "1200"))
+        sample = rng.sample(ok, min(k, len(ok)))
+        known_ids = {kid for kid, f in known.items() if f.get("kind") == "known"}
+        budget = float(os.environ.get("VERIF_MIX_CPU", "8"))
+        ctx = multiprocessing.get_context("fork")
+        t0 = time.time()
+        with ctx.Pool(1) as pool:
+            r = pool.apply(_mix_child, ((self.modname, cases, sample, known_ids, budget),))
+        self.mix_info = {"cases": len(sample), "wall_s": round(time.time() - t0, 1), "failure": bool(r)}
+        if not r:
+            return None
+        pos, phase, f, a = r
+        seq = sample if phase == "shuffled" else list(reversed(sample))
+        prefix = ([] if phase == "shuffled" else list(sample)) + seq[:pos + 1]
+        # shrink: the shortest suffix of the history that still fails in a fresh process
+        best = prefix
+        n = 1
+        while n < len(prefix):
+            n = min(len(prefix), n * 2)
+            cand = prefix[-n:]
+            with ctx.Pool(1) as pool:
+                rr = pool.apply(_mix_child_seq, ((self.modname, [cases[i] for i in cand], known_ids),))
+            if rr:
+                best = cand
+                break
+        # then try single predecessors
+        if len(best) > 2:
+            last = best[-1]
+            for j in reversed(best[:-1]):
+                with ctx.Pool(1) as pool:
+                    rr = pool.apply(_mix_child_seq, ((self.modname, [cases[j], cases[last]], known_ids),))
+                if rr:
+                    best = [j, last]
+                    break
+        return ("mix", f + f"  [order dependence: fails only after {len(best) - 1} earlier call(s) in the same process]",
+                [dict(cases[i]) for i in best], a)
 
     def concentrated_search(self, seeds, known):
         mod = self.mod
@@ -413,6 +516,7 @@ class Check:
                 "translator": info.get("translator", {}).get("summary", {}),
                 "source_fingerprint": getattr(self, "escalation", None),
                 "notes": list(self.notes),
+                "mixing_pass": getattr(self, "mix_info", None),
                 "leanchecker": info.get("leanchecker"),
                 "status": status,
             },
